@@ -567,6 +567,12 @@ pub fn stream_problem<D: Store + Mk>(p: &ParseResult, a: &Accepted<D>) -> Option
         match m.get_from_jump_table(j) {
             None => return Some(("missing-jump-entry".into(), format!("jump entry {} unreadable", j))),
             Some(t) => {
+                let nodes = p.get_nodes();
+                let empty_group = |i: Option<usize>| i.and_then(|i| nodes.get(i)).map(|n| n.get_definition() == Df::Group && n.get_right().is_none()).unwrap_or(false);
+                if t == ilen && nodes.iter().any(|n| n.get_definition() == Df::NestedExpression && empty_group(n.get_right())) {
+                    // a branch / expression body that is an empty group emits nothing (root cause named, not the witness)
+                    return Some(("jump-target-one-past-end|nested-expression-holding-an-empty-group".into(), format!("jump entry {} -> {} = one past the last instruction: a nested expression whose whole body is an empty group emits nothing", j, t)));
+                }
                 if t >= ilen {
                     return Some(("jump-target-out-of-range".into(), format!("jump entry {} -> {} but there are {} instructions", j, t, ilen)));
                 }
@@ -647,7 +653,8 @@ fn judge_c05(src: &str, kind: &str, acc: &mut Acc) {
         if seen < 6 {
             let witness = minimize(src, &c05_key);
             acc.violation(
-                format!("{}|{}", class, witness),
+                // classes that already name a root cause are not split by witness
+                if class.contains('|') { class.clone() } else { format!("{}|{}", class, witness) },
                 format!("built stream of {:?} (minimised {:?}, corpus {}): {}", src.chars().take(200).collect::<String>(), witness, kind, desc),
                 Json::obj().with("input", Json::s(src)).with("witness", Json::s(witness.clone())).with("corpus", Json::s(kind)),
             );
@@ -793,6 +800,20 @@ fn lookup_program(r: &mut Rng) -> String {
         4 => format!("{} <~ ({} {})", rec, path, path),
         _ => format!("x = {}\n\nx <~ {}, x ~ {}", rec, path, path),
     }
+}
+
+/// judge one given source text (debugging aid: `gmon judge C05 "<src>"`)
+pub fn judge_one(prop: &str, src: &str) -> Acc {
+    let mut acc = Acc::default();
+    match prop {
+        "C03" => judge_c03(src, "given", &mut acc),
+        "C04" => judge_c04(src, "given", &mut acc),
+        "C05" => judge_c05(src, "given", &mut acc),
+        "C06" => crate::props::c06::judge(src, "given", 20_000, &mut acc),
+        "C07" => judge_c07(src, "given", 20_000, &mut acc),
+        _ => {}
+    }
+    acc
 }
 
 pub const FIXED: [&str; 27] = [
